@@ -528,6 +528,23 @@ def run(ctx, rep):
         else:
             rep.violation("C14.4", cons, "the repetition count is not checked to be an integer (or a let/parameter standing for one): `let n 2.5; loop n { .. }` is accepted and fails with TypeError when executed", fi.loc(), witness="let n 2.5\nregister r[1]\nloop n { prepare_all; measure_all }")
 
+    # every argument of a macro call is checked before substitution can drop it
+    rg_ = ix.functions.get("jaqalpaq.core.algorithm.expand_macros.replace_gate")
+    if rg_ is not None:
+        cons = construct_of(rg_, "macro-arguments-checked")
+        gparam = rg_.params[0]
+        ok_ = False
+        for st in iter_stmts(rg_.body):
+            if isinstance(st, ast.For) and any(isinstance(m, ast.Attribute) and m.attr == "parameters" and isinstance(m.value, ast.Name) and m.value.id == gparam for m in ast.walk(st.iter)):
+                for cs in T.callsites(rg_):
+                    if isinstance(cs.node, ast.Call) and any(x is cs.node for b in st.body for x in ast.walk(b)):
+                        for t in cs.targets:
+                            if any(isinstance(m, ast.Call) and isinstance(m.func, ast.Attribute) and m.func.attr == "resolve_qubit" for m in ast.walk(t.node)):
+                                ok_ = True
+        if ok_:
+            rep.ok("C14.4", cons, "each argument of the call goes through a function that resolves qubit references (index range checked) before the body is substituted", rg_.loc())
+        else:
+            rep.violation("C14.4", cons, "arguments of a macro call are only validated where the body uses them: `macro foo a { Px r[0] }; foo r[n]` with n out of range is accepted once macros are expanded (the argument is dropped unchecked)", rg_.loc(), witness="let n 3\nregister r[3]\nmacro foo a { Px r[0] }\nfoo r[n]   with expand_macro=True")
     # counts that arise by macro substitution are validated by the substituting visitor
     from . import c04 as _c04
     _exp, _repl = _c04.find_visitors(ctx)
